@@ -39,8 +39,13 @@ impl<S: Runtime + 'static> Loop<'_, S> {
         while super::evaluate_condition(self.env, self.condition_command).await?
             == self.expected_condition
         {
-            self.body.execute(self.env).await?;
-            self.exit_status = self.env.exit_status;
+            let result = self.body.execute(self.env).await;
+            // A `continue` for this loop ends the current round of the body,
+            // so the exit status of the body is that of the continue built-in.
+            if let Continue(()) | Break(Divert::Continue { count: 0 }) = result {
+                self.exit_status = self.env.exit_status;
+            }
+            result?;
         }
         Continue(())
     }
